@@ -78,6 +78,7 @@ type faultBucket struct {
 	failList   bool
 	failDelete map[string]bool
 	deleted    []string
+	failLoads  map[string]int // name -> number of Load calls that fail first (transient download errors)
 }
 
 func (b *faultBucket) Delete(ctx context.Context, name string) error {
@@ -131,6 +132,13 @@ func (b *faultBucket) Load(ctx context.Context, name string) ([]byte, error) {
 			return nil, ctx.Err()
 		}
 	}
+	b.mu.Lock()
+	if b.failLoads[name] > 0 {
+		b.failLoads[name]--
+		b.mu.Unlock()
+		return nil, errInjected
+	}
+	b.mu.Unlock()
 	return b.Interface.Load(ctx, name)
 }
 
@@ -619,6 +627,13 @@ func runLoopBehaviour(R *Result, in loopInput, beh []loopStep, bi int) error {
 				name = lr.fb.stored[n-1]
 			}
 			lr.fb.mu.Lock()
+			if bi%3 == 1 { // a transient download error first: the downloader has to try again (Receiver.tla: LoadFails)
+				if lr.fb.failLoads == nil {
+					lr.fb.failLoads = map[string]int{}
+				}
+				lr.fb.failLoads[name] = 1 + bi%2
+				R.Count("own_snapshot_load_failures_injected", 1)
+			}
 			if ch := lr.fb.loadGate[name]; ch != nil {
 				close(ch)
 				delete(lr.fb.loadGate, name)
